@@ -117,7 +117,7 @@ Definition in_window_commit (t : Z) : Prop :=
 
 Lemma time_travel : forall is_rel t par' us refs' pend,
   in_window_commit t ->
-  (forall ck, In ck cl -> (c_vidx s < c_vidx ck)%nat -> stamp cis ck <= t -> c_visible ck = true) ->
+  (forall e, current_at cis cl t = Some e -> (c_vidx s < c_vidx e)%nat -> c_visible e = true) ->
   nth_error ps' p = Some par' -> nth_error results p = Some us ->
   apply_updates_up_to is_rel t (p_refs par') us = ApplyOk refs' pend ->
   exists e r', current_at cis cl t = Some e /\ nth_error refs' j = Some r' /\ ref_carries r' e.
@@ -175,7 +175,7 @@ Proof.
     set (ue := child_update cis e j).
     assert (In ue us /\ u_index ue = j) as [Hue _].
     { apply (proj2 (Hmem ue)). exists e. split; [eapply nth_error_In; exact He|].
-      split; [apply Hbetween; [eapply nth_error_In; exact He|lia|exact Hpe]|].
+      split; [apply (Hbetween e); [rewrite (current_at_pos cis t cl Hm), Epre; exact He|lia]|].
       split; [reflexivity|]. split; [lia|].
       unfold bound_ok. destruct (nth_error ps (S p)) as [n|] eqn:En; [|exact I].
       destruct (visible_only (current_at cis cl (pstamp cis n))) as [cn|] eqn:Ecn; [|lia].
@@ -217,12 +217,16 @@ Lemma time_travel_strict : forall is_rel t par' us refs' pend,
 Proof.
   intros is_rel t par' us refs' pend Hig Hw Hpar' Hus Happ.
   apply (time_travel is_rel t par' us refs' pend Hw); try assumption.
-  intros ck Hck Hlt Hst.
+  intros e He Hlt.
   pose proof (stamps_monotone_mono _ _ Hsm) as Hm.
+  rewrite (current_at_pos cis t cl Hm) in He.
+  destruct (at_pos_some _ _ _ He) as [m [Em Hem]].
+  assert (m < pre (le_T cis t) cl)%nat as Hmlt by (rewrite Em; lia).
+  destruct (pre_lt _ cl m Hmlt) as [e' [He' Hpe]]. rewrite Hem in He'. inversion He'; subst e'.
+  unfold le_T in Hpe. apply Z.leb_le in Hpe.
   apply (between_visible cis o ps hist entries sortf ps' results p par j r cl s
-           Hv Hc Hp Hvis Hcp Hnp Hj Hf Hh Hne Hvx Hsm Hcc Hsel Hig ck Hck Hlt).
-  apply In_nth_error in Hck. destruct Hck as [i Hi].
-  apply (bound_ok_before cis cl (nth_error ps (S p)) i ck Hvx Hm Hi).
+           Hv Hc Hp Hvis Hcp Hnp Hj Hf Hh Hne Hvx Hsm Hcc Hsel Hig e (nth_error_In _ _ Hem) Hlt).
+  apply (bound_ok_before cis cl (nth_error ps (S p)) m e Hvx Hm Hem).
   destruct Hw as [_ Hhi]. destruct (nth_error ps (S p)) as [n|]; [lia|exact I].
 Qed.
 
